@@ -93,6 +93,7 @@ func (p *Proc) open(dirfd int, path string, flags int, perm uint32) (fd int, cpa
 		if flags&O_TRUNC != 0 && ino.IsReg() && wantW {
 			ino.Data = nil
 			ino.Gen++
+			ino.Mtime = p.FS.now()
 			p.FS.notifyInode(den, IN_MODIFY)
 		}
 	}
@@ -229,6 +230,7 @@ func (p *Proc) Write(fd int, b []byte) (int, syscall.Errno) {
 	f.off = end
 	f.wrote = true
 	ino.Gen++
+	ino.Mtime = p.FS.now()
 	p.FS.notifyInode(f.dentry, IN_MODIFY)
 	p.FS.record(p, "write", pathOf(f.dentry), "", true, 0, len(b))
 	return len(b), 0
@@ -301,6 +303,7 @@ func (p *Proc) truncate(d *Dentry, size int64) {
 	copy(nd, ino.Data)
 	ino.Data = nd
 	ino.Gen++
+	ino.Mtime = p.FS.now()
 	p.FS.notifyInode(d, IN_MODIFY)
 }
 
